@@ -9,6 +9,7 @@
   No bound on `N`, on the contents or on the surrounding memory.
 -/
 import Sbepp.Lemmas.StaticArray
+import Sbepp.Lemmas.StaticArrayTie
 
 namespace Sbepp.Properties.C14
 open Sbepp Sbepp.Rt.StaticArray Sbepp.Lemmas.StaticArray
@@ -395,5 +396,82 @@ example : strlenCE ⟨1, 1, 1⟩ [126, 97, 126, 0] = .ok [126, 97, 126, 0] (some
 example : Spec.StaticArray.strlen [97] = 1 := by decide
 example : (0 : Nat) ∈ [97, 0, 98] := by decide
 example : ∃ v : View, v.avail < v.N := ⟨⟨0, 2, 1⟩, by decide⟩
+
+/-! ### the same statements about the definitions regenerated from `sbepp.hpp`
+
+  `Sbepp.Extracted.StaticArray` is written by `extract/methods_staticarray.py`
+  from the text of `static_array_ref` on every check; `Lemmas/StaticArrayTie.lean`
+  proves each regenerated member function equal to the hand model above
+  (`runX_tie`).  The statements below are therefore about what the code says
+  now, for either branch of `is_constant_evaluated()` and either value of
+  `SBEPP_HAS_RANGES` (`cfg`).  Extra hypotheses, both true of every program:
+  `end - begin` of the view fits `std::size_t` (`h64`; with `hav` so does `N`),
+  and the lengths that the C++ converts to `std::size_t` fit it (`OpFits`). -/
+
+open Sbepp.Lemmas.StaticArrayTie (Cfg runX OpFits runX_tie)
+
+theorem fits_of (n avail off : Nat) (hav : n ≤ avail) (h64 : avail < 18446744073709551616) :
+    View.Fits ⟨off, n, avail⟩ := ⟨Nat.lt_of_le_of_lt hav h64, h64⟩
+
+/-- **C14 (main), for the regenerated definitions** -/
+theorem run_agrees_spec_extracted (cfg : Cfg) (pre arr post : List Nat) (avail : Nat) (op : Op)
+    (sop : Spec.StaticArray.Op) (hd : denote op = some sop) (hav : arr.length ≤ avail)
+    (hfit : ∀ r m, op = .assignStringRange r m ∨ op = .assignRange r ∨ op = .assignIter r →
+      r.length ≤ arr.length + post.length)
+    (h64 : avail < 18446744073709551616) (hop : OpFits op) :
+    Agrees pre post (runX cfg ⟨pre.length, arr.length, avail⟩ (pre ++ arr ++ post) op)
+      (Spec.StaticArray.apply arr sop) := by
+  rw [runX_tie cfg _ (fits_of _ _ _ hav h64) _ op hop]
+  exact run_agrees_spec pre arr post avail op sop hd hav hfit
+
+theorem no_assert_in_contract_extracted (cfg : Cfg) (pre arr post : List Nat) (avail : Nat) (op : Op)
+    (sop : Spec.StaticArray.Op) (hd : denote op = some sop) (hav : arr.length ≤ avail)
+    (hc : Spec.StaticArray.InContract arr.length sop)
+    (h64 : avail < 18446744073709551616) (hop : OpFits op) :
+    ∃ buf' ret, runX cfg ⟨pre.length, arr.length, avail⟩ (pre ++ arr ++ post) op = .ok buf' ret := by
+  rw [runX_tie cfg _ (fits_of _ _ _ hav h64) _ op hop]
+  exact no_assert_in_contract pre arr post avail op sop hd hav hc
+
+theorem assert_outside_contract_extracted (cfg : Cfg) (pre arr post : List Nat) (avail : Nat)
+    (op : Op) (sop : Spec.StaticArray.Op) (hd : denote op = some sop) (hav : arr.length ≤ avail)
+    (hc : ¬ Spec.StaticArray.InContract arr.length sop)
+    (hfit : ∀ r m, op = .assignStringRange r m ∨ op = .assignRange r ∨ op = .assignIter r →
+      r.length ≤ arr.length + post.length)
+    (h64 : avail < 18446744073709551616) (hop : OpFits op) :
+    ∃ b, runX cfg ⟨pre.length, arr.length, avail⟩ (pre ++ arr ++ post) op = .assertFailed b := by
+  rw [runX_tie cfg _ (fits_of _ _ _ hav h64) _ op hop]
+  exact assert_outside_contract pre arr post avail op sop hd hav hc hfit
+
+/-- a view shorter than `N` (here `N` itself must fit `std::size_t`, which
+    `avail < N` no longer implies) -/
+theorem view_too_small_rejects_extracted (cfg : Cfg) (v : View) (buf : List Nat) (op : Op)
+    (h : v.avail < v.N) (hN : v.N < 18446744073709551616) (hop : OpFits op) :
+    runX cfg v buf op = .assertFailed buf ∨ runX cfg v buf op = .ub := by
+  rw [runX_tie cfg v ⟨hN, Nat.lt_trans h hN⟩ buf op hop]
+  exact view_too_small_rejects v buf op h
+
+/-- both branches of the regenerated `strlen()` agree on every array -/
+theorem strlen_variants_agree_extracted (pre arr post : List Nat) (avail : Nat)
+    (hav : arr.length ≤ avail) (h64 : avail < 18446744073709551616) :
+    Extracted.StaticArray.strlenCE ⟨pre.length, arr.length, avail⟩ (pre ++ arr ++ post)
+      = Extracted.StaticArray.strlen ⟨pre.length, arr.length, avail⟩ (pre ++ arr ++ post) := by
+  rw [Lemmas.StaticArrayTie.strlenCE_tie _ (fits_of _ _ _ hav h64),
+    Lemmas.StaticArrayTie.strlen_tie _ (fits_of _ _ _ hav h64)]
+  exact strlen_variants_agree pre arr post avail hav
+
+-- non-vacuity of the added hypotheses, and the regenerated definitions compute
+example : View.Fits ⟨1, 4, 4⟩ := by simp [View.Fits]
+example : OpFits (.assignStringRaw (some [97, 98, 0, 55]) .single) ∧ OpFits (.assignIter [97, 98, 99]) := by
+  simp [OpFits]
+example : runX ⟨false, false⟩ ⟨1, 4, 4⟩ [126, 98, 98, 98, 98, 126] (.assignStringRaw (some [97, 98, 0, 55]) .single)
+    = .ok [126, 97, 98, 0, 98, 126] (some 3) := by decide
+example : runX ⟨true, true⟩ ⟨1, 4, 4⟩ [126, 98, 98, 98, 98, 126] (.assignStringRaw (some [97, 98, 0, 55]) .single)
+    = .ok [126, 97, 98, 0, 98, 126] (some 3) := by decide
+example : runX ⟨false, true⟩ ⟨1, 2, 2⟩ [126, 0, 0, 126] (.assignRange [97, 98, 99])
+    = .assertFailed [126, 97, 98, 99] := by decide
+example : runX ⟨false, false⟩ ⟨1, 4, 4⟩ [126, 97, 0, 98, 0, 126] .strlenCE
+    = .ok [126, 97, 0, 98, 0, 126] (some 1) := by decide
+example : runX ⟨false, false⟩ ⟨1, 4, 4⟩ [126, 97, 0, 98, 0, 126] .strlenR
+    = .ok [126, 97, 0, 98, 0, 126] (some 3) := by decide
 
 end Sbepp.Properties.C14
